@@ -87,8 +87,8 @@ struct EvalPeek : public Evaluator {
     const Interval& slot(size_t c) const { return i[c]; }
 };
 
-// did IntervalEvaluator::push just take KEEP_B on a min/max clause with a maybe-NaN operand?
-// (same conditions as eval_interval.cpp; over all clauses of the tape being specialised)
+// would IntervalEvaluator::push *before fix c73cfff* have taken KEEP_B on a min/max clause with a maybe-NaN
+// operand?  (diagnosis only: names the mechanism if pushed-tape differences ever come back)
 static bool keepBOnMaybeNaN(const EvalPeek* e, const Tape& tape) {
     for (auto it = tape.rbegin(); it != tape.rend(); ++it) {
         if (it->a == it->b) continue;
@@ -145,7 +145,8 @@ static void explore(EvalPeek* e, const Tape::Handle& tape, const Voxels::View& r
                   << (base.first.isSafe() ? 0 : 1) << " taint " << (taint ? 1 : 0) << "\n";
         if (base.second != e->getDeck()->tape) e->getDeck()->claim(std::move(base.second));
     }
-    if (!out.isFilled() && !out.isEmpty()) {
+    // same branch structure as Heightmap::recurse: fill iff safe && filled, prune iff empty, else split
+    if (!(out.isSafe() && out.isFilled()) && !out.isEmpty()) {
         printSplit(7, r);
         auto rs = r.split();
         explore(e, result.second, rs.second, w, budget, taintBelow);
